@@ -855,7 +855,24 @@ fn gen_return(r: &mut Rng, vars: &[String]) -> String {
 fn gen_text(r: &mut Rng, lang: &str) -> String {
     let mut next = 0usize;
     let mut bound: Vec<String> = vec![];
-    match r.below(13) {
+    match r.below(15) {
+        // a variable with the name of the (unreported) path-length column, on the other side of a join
+        14 if lang == "gql" => {
+            let w = format!("WHERE _path_length_p.k{} = {}", r.below(3), 1 + r.below(3));
+            if r.chance(1, 2) {
+                format!("MATCH p = (a{})-[*1..2]->(b) MATCH (_path_length_p) {} RETURN a.k9, b.k9", lab(r), w)
+            } else {
+                format!("MATCH (_path_length_p) MATCH p = (a{})-[*1..2]->(b) {} RETURN a.k9, b.k9", lab(r), w)
+            }
+        }
+        // operators collect_output_variables does not know / reports loosely, next to a second binding
+        13 => {
+            if lang == "gql" {
+                format!("MATCH (b{}) MATCH p = shortestPath((b)-[*]->(c)) WHERE b.k{} = {} RETURN b.k9, c.k9", lab(r), r.below(3), 1 + r.below(3))
+            } else {
+                format!("MATCH (x{})-[]->(a) RETURN x, a.k{}, count(a) MATCH (x)-[]->(a) WHERE a.k{} = {}", lab(r), r.below(3), r.below(3), 1 + r.below(3))
+            }
+        }
         // a WITH that drops a variable, then a MATCH that binds the same name again (Cypher; row-level fragment)
         12 if lang == "cypher" => {
             let keep = *r.pick(&["a", "a", "b"]);
@@ -872,7 +889,7 @@ fn gen_text(r: &mut Rng, lang: &str) -> String {
             format!("MATCH (a{}){} RETURN a.k9 WHERE {}.k{} = {}", lab(r), hop, v, r.below(3), 1 + r.below(3))
         }
         // two patterns in the first MATCH, a second MATCH, a predicate across them (row-level fragment)
-        9 | 11 | 12 => {
+        9 | 11 | 12 | 14 => {
             let k = r.below(3);
             let op = *r.pick(&["=", "<>", "<", ">="]);
             let (x, y) = *r.pick(&[("a", "c"), ("b", "c"), ("c", "a"), ("a", "b")]);
